@@ -983,6 +983,12 @@ func XBFieldValue(sv ssa.Value, fld int) ssa.Value {
 	if !ok {
 		return nil
 	}
+	// only a cell that is built field by field (composite literal): no store of a whole struct into it
+	for _, r := range *cell.Referrers() {
+		if st, ok := r.(*ssa.Store); ok && st.Addr == ssa.Value(cell) {
+			return nil
+		}
+	}
 	var val ssa.Value
 	n := 0
 	for _, r := range *cell.Referrers() {
@@ -1019,10 +1025,161 @@ func XBArgOf(call ssa.CallInstruction, s XBSlot) (val ssa.Value, pass XBSlot, ok
 	if v := XBFieldValue(a, s.Field); v != nil {
 		return v, XBSlot{}, false
 	}
+	if v := XBFieldLoad(a, s.Field); v != nil {
+		return v, XBSlot{}, false
+	}
 	if p, ok := a.(*ssa.Parameter); ok {
 		if i := xbParamIdx(p); i >= 0 {
 			return nil, XBSlot{p.Parent(), i, s.Field}, true
 		}
 	}
 	return nil, XBSlot{}, false
+}
+
+// ---------------------------------------------------------------------------
+// Round 9
+
+// XBCounterBelow reports whether site executes only while some loop counter
+// (phi(init, counter+1)) is known to be < k. Two loop shapes are recognised:
+// the classic one (the test "counter < k" is crossed on the way to site in every
+// iteration) and the rotated one go/ssa builds for "for range k" / do-while
+// loops (every edge into the counter's block either carries a constant < k or is
+// the true edge of "(counter+1) < k"), with site dominated by the counter's block.
+func XBCounterBelow(fn *ssa.Function, site ssa.Instruction, k int64) bool {
+	rels := XBEdgeRels(fn)
+	isStepOf := func(v ssa.Value, ph *ssa.Phi) bool {
+		b, ok := v.(*ssa.BinOp)
+		if !ok || b.Op != token.ADD {
+			return false
+		}
+		one, isK := XBInt64(b.Y)
+		return isK && one == 1 && b.X == ssa.Value(ph)
+	}
+	for _, blk := range fn.Blocks {
+		for _, in := range blk.Instrs {
+			ph, ok := in.(*ssa.Phi)
+			if !ok {
+				break
+			}
+			stepped := false
+			for _, e := range ph.Edges {
+				if isStepOf(e, ph) {
+					stepped = true
+				}
+			}
+			if !stepped {
+				continue
+			}
+			// classic: counter < k on an edge that guards the site per iteration
+			classic := EdgeSet{}
+			for e, r := range rels {
+				kk, isK := XBInt64(r.Y)
+				if isK && r.X == ssa.Value(ph) && ((r.Op == token.LSS && kk <= k) || (r.Op == token.LEQ && kk < k)) {
+					classic[e] = true
+				}
+			}
+			if len(classic) > 0 && GuardedBy(fn, nil, site, classic) && !Reaches(fn, site, site, classic, nil) {
+				return true
+			}
+			// rotated: every way into the counter's block establishes counter < k
+			if !(blk == site.Block() || blk.Dominates(site.Block())) {
+				continue
+			}
+			all := len(ph.Edges) > 0
+			for i, v := range ph.Edges {
+				pred := blk.Preds[i]
+				if c, isK := XBInt64(v); isK {
+					if c < k {
+						continue
+					}
+					all = false
+					break
+				}
+				okEdge := false
+				for si, sb := range pred.Succs {
+					if sb != blk {
+						continue
+					}
+					if r, ok := rels[Edge{pred, si}]; ok {
+						kk, isK := XBInt64(r.Y)
+						if isK && r.X == v && ((r.Op == token.LSS && kk <= k) || (r.Op == token.LEQ && kk < k)) && isStepOf(v, ph) {
+							okEdge = true
+						}
+					}
+				}
+				if !okEdge {
+					all = false
+					break
+				}
+			}
+			if all {
+				return true
+			}
+		}
+	}
+	return false
+}
+
+// XBSameLocation: a and b are loads of the same field of the same local struct
+// cell and no store to that field exists in the function (so both read the
+// value the cell was initialised with as a whole).
+func XBSameLocation(a, b ssa.Value) bool {
+	la, ok1 := a.(*ssa.UnOp)
+	lb, ok2 := b.(*ssa.UnOp)
+	if !ok1 || !ok2 || la.Op != token.MUL || lb.Op != token.MUL {
+		return false
+	}
+	fa, ok1 := la.X.(*ssa.FieldAddr)
+	fb, ok2 := lb.X.(*ssa.FieldAddr)
+	if !ok1 || !ok2 || fa.Field != fb.Field || fa.X != fb.X {
+		return false
+	}
+	cell, ok := fa.X.(*ssa.Alloc)
+	if !ok {
+		return false
+	}
+	return xbFieldStores(cell, fa.Field) == 0
+}
+
+func xbFieldStores(cell *ssa.Alloc, fld int) int {
+	n := 0
+	for _, r := range *cell.Referrers() {
+		f, ok := r.(*ssa.FieldAddr)
+		if !ok || f.Field != fld {
+			continue
+		}
+		for _, rr := range *f.Referrers() {
+			if st, ok := rr.(*ssa.Store); ok && st.Addr == f {
+				n++
+			}
+		}
+	}
+	return n
+}
+
+// XBFieldLoad returns some load of field fld of the local struct cell behind
+// the struct value sv (a load of that cell) when the field is never stored
+// individually: every such load yields the field of the value the cell was
+// initialised with.
+func XBFieldLoad(sv ssa.Value, fld int) ssa.Value {
+	u, ok := sv.(*ssa.UnOp)
+	if !ok || u.Op != token.MUL {
+		return nil
+	}
+	cell, ok := u.X.(*ssa.Alloc)
+	if !ok || xbFieldStores(cell, fld) != 0 {
+		return nil
+	}
+	for _, r := range *cell.Referrers() {
+		f, ok := r.(*ssa.FieldAddr)
+		if !ok || f.Field != fld {
+			continue
+		}
+		for _, rr := range *f.Referrers() {
+			if l, ok := rr.(*ssa.UnOp); ok && l.Op == token.MUL && l.X == ssa.Value(f) {
+				return l
+			}
+		}
+	}
+	return nil
 }
